@@ -28,14 +28,15 @@ MixedSyms == <<
 Syms == CASE Alpha = "text" -> TextSyms [] Alpha = "code" -> CodeSyms [] OTHER -> MixedSyms
 Prefix == IF Alpha = "code" THEN {<<123, 123>>, <<123, 37>>, <<120, 10, 123, 123, 45>>} ELSE {<<>>}
 
-SymSeqs == UNION {[1..n -> 1..Len(Syms)] : n \in 0..MaxLen}
 
 VARIABLE printed
 mcVars == <<lexVars, printed>>
 
 MCInit ==
-  /\ \E p \in Prefix, w \in SymSeqs :
-        LexInit(p \o Flatten([i \in 1..Len(w) |-> Syms[w[i]]]))
+  \* (nested quantifiers: TLC enumerates the function sets lazily instead of building one set of all strings)
+  /\ \E p \in Prefix, n \in 0..MaxLen :
+        \E w \in [1..n -> 1..Len(Syms)] :
+           LexInit(p \o Flatten([i \in 1..n |-> Syms[w[i]]]))
   /\ printed = FALSE
 
 MCNext ==
